@@ -106,8 +106,9 @@ Qed.
 
 (* ---- circular mean ---- *)
 (* the cosine and sine estimates the code forms from an angle estimate (x, v) *)
-Definition cos_est (e : est) : est := (cos (fst e), (1 - cos (fst e) * cos (fst e)) * snd e).
-Definition sin_est (e : est) : est := (sin (fst e), (1 - sin (fst e) * sin (fst e)) * snd e).
+(* first-order variances: the squared derivative itself (as Estimate.h evaluates it since fix 200c664) *)
+Definition cos_est (e : est) : est := (cos (fst e), sin (fst e) * sin (fst e) * snd e).
+Definition sin_est (e : est) : est := (sin (fst e), cos (fst e) * cos (fst e) * snd e).
 Definition racc (l : list est) : st * st := (acc (map cos_est l), acc (map sin_est l)).
 
 Theorem racc_permutation l l' : Permutation l l' -> racc l = racc l'.
